@@ -109,10 +109,80 @@ def aead_order_facts(paramiko):
             aead_use_before_increment(src, "read_message", "__iv_in", "decrypt"))
 
 
+def session_id_guarded(paramiko):
+    """AST fact about the whole package: `<x>.session_id` is assigned exactly twice — `self.session_id = None` in
+    Transport.__init__, and `self.session_id = <h>` (h = the exchange-hash parameter) in Transport._set_K_H as a
+    statement directly under a top-level `if self.session_id is None:` without else.  Returns (bool, detail)."""
+    import ast
+    import glob
+    import os
+
+    def is_self_sid(node):
+        return isinstance(node, ast.Attribute) and node.attr == "session_id" and \
+            isinstance(node.value, ast.Name) and node.value.id == "self"
+
+    pkg = os.path.dirname(paramiko.__file__)
+    sites = []  # (file, class, function, node)
+    for path in sorted(glob.glob(os.path.join(pkg, "*.py"))):
+        tree = ast.parse(open(path, encoding="utf-8").read())
+        parents = {}
+        for n in ast.walk(tree):
+            for c in ast.iter_child_nodes(n):
+                parents[c] = n
+        for n in ast.walk(tree):
+            targets = []
+            if isinstance(n, ast.Assign):
+                targets = n.targets
+            elif isinstance(n, (ast.AugAssign, ast.AnnAssign)):
+                targets = [n.target]
+            elif isinstance(n, ast.Call) and isinstance(n.func, ast.Name) and n.func.id == "setattr" and \
+                    len(n.args) >= 2 and isinstance(n.args[1], ast.Constant) and n.args[1].value == "session_id":
+                sites.append((os.path.basename(path), None, None, n))
+                continue
+            flat = []
+            for t in targets:
+                flat += list(t.elts) if isinstance(t, (ast.Tuple, ast.List)) else [t]
+            if any(isinstance(t, ast.Attribute) and t.attr == "session_id" for t in flat):
+                fn = cls = None
+                p = n
+                while p in parents:
+                    p = parents[p]
+                    if isinstance(p, ast.FunctionDef) and fn is None:
+                        fn = p
+                    if isinstance(p, ast.ClassDef) and cls is None:
+                        cls = p
+                sites.append((os.path.basename(path), cls.name if cls else None, fn, n))
+    if len(sites) != 2:
+        return False, "%d assignments to .session_id: %r" % (len(sites), [(a, b, c.name if c else None) for a, b, c, _ in sites])
+    init = [x for x in sites if x[2] is not None and x[2].name == "__init__"]
+    setk = [x for x in sites if x[2] is not None and x[2].name == "_set_K_H"]
+    if len(init) != 1 or len(setk) != 1 or any(x[0] != "transport.py" or x[1] != "Transport" for x in sites):
+        return False, "assignments not in Transport.__init__ / Transport._set_K_H"
+    n = init[0][3]
+    if not (isinstance(n, ast.Assign) and isinstance(n.value, ast.Constant) and n.value.value is None
+            and len(n.targets) == 1 and is_self_sid(n.targets[0])):
+        return False, "__init__ does not store None"
+    fn, n = setk[0][2], setk[0][3]
+    params = [a.arg for a in fn.args.args]
+    if len(params) != 3:
+        return False, "_set_K_H signature changed"
+    for st in fn.body:  # the guard must be a top-level statement of the function and hold the assignment directly
+        if isinstance(st, ast.If) and n in st.body and not st.orelse:
+            t = st.test
+            ok = isinstance(t, ast.Compare) and is_self_sid(t.left) and len(t.ops) == 1 and \
+                isinstance(t.ops[0], ast.Is) and isinstance(t.comparators[0], ast.Constant) and \
+                t.comparators[0].value is None
+            val = isinstance(n, ast.Assign) and len(n.targets) == 1 and is_self_sid(n.targets[0]) and \
+                isinstance(n.value, ast.Name) and n.value.id == params[2]
+            return (ok and val), ("guard ok=%r value-is-h=%r" % (ok, val))
+    return False, "assignment in _set_K_H is not directly under a top-level `if self.session_id is None:`"
+
+
 def gen_c04(Transport):
     """lean/PV/Generated/C04.lean from Transport._cipher_info / _mac_info / _kex_info and packet.py's AST."""
     import paramiko
     send_first, recv_first = aead_order_facts(paramiko)
+    sid_guarded = session_id_guarded(paramiko)[0]
     rows = []
     for name, info in Transport._cipher_info.items():
         bs = int(info["block-size"])
@@ -143,7 +213,11 @@ def gen_c04(Transport):
         "def aeadSendUseFirst : Bool := %s\n"
         "/-- same for Packetizer.read_message: `engine.decrypt(self.__iv_in, …)` before the `__iv_in` step -/\n"
         "def aeadRecvUseFirst : Bool := %s\n\n"
-        "end PV.Generated.C04\n" % ("true" if send_first else "false", "true" if recv_first else "false")
+        "/-- AST of paramiko/*.py: `.session_id` is assigned only as `= None` in Transport.__init__ and as `= h` directly\n"
+        "    under a top-level `if self.session_id is None:` in Transport._set_K_H -/\n"
+        "def sessionIdGuarded : Bool := %s\n\n"
+        "end PV.Generated.C04\n" % ("true" if send_first else "false", "true" if recv_first else "false",
+                                     "true" if sid_guarded else "false")
     )
 
 
